@@ -189,6 +189,7 @@ def spec_stream(case, out):
     if st == 204:
         if body: return f'204 with {len(body)} body bytes on the wire'
         if b'content-length' in hs: return '204 with Content-Length'
+        if b'transfer-encoding' in hs: return '204 with Transfer-Encoding (no content, no coding of it: RFC 9112 6.1)'
         return None
     if st == 304 or 100 <= st <= 199: return None          # content set on a 1xx / 304 is left to the user by `complete` (documented there); the property's no-body rules are 204 and HEAD
     if hs.get(b'transfer-encoding') != b'chunked' or b'content-length' in hs: return 'a stream needs Transfer-Encoding: chunked and no Content-Length'
